@@ -1,7 +1,7 @@
 // Compiles the fixed template family (src/shape.rs) with the real `view!` macro: writes
 // $OUT_DIR/templates.rs with three functions per shape (0 as written, 1 forced-dynamic twin, 2 one extra
 // dynamic sibling) and the table TEMPLATES.  The family does not depend on the run's seed (VERIF_SEED only
-// chooses hole values and which shapes a run exercises); HX_C18_N sets its size.
+// chooses hole values and which shapes a run exercises); HX_C18_N sets the number of pseudo-random shapes after the systematic ones.
 #![allow(dead_code)]
 include!("src/shape.rs");
 
@@ -9,10 +9,10 @@ fn main() {
     println!("cargo:rerun-if-changed=src/shape.rs");
     println!("cargo:rerun-if-changed=build.rs");
     println!("cargo:rerun-if-env-changed=HX_C18_N");
-    let n: usize = std::env::var("HX_C18_N").ok().and_then(|s| s.parse().ok()).unwrap_or(320);
+    let n: usize = std::env::var("HX_C18_N").ok().and_then(|s| s.parse().ok()).unwrap_or(170);
     let shapes = shapes(n);
     let mut o = String::new();
-    o.push_str(&format!("pub const N_SHAPES: usize = {};\n", shapes.len()));
+    o.push_str(&format!("pub const N_SHAPES: usize = {};\npub const N_RANDOM: usize = {};\n", shapes.len(), n));
     for (k, sh) in shapes.iter().enumerate() {
         let variants = [sh.roots.clone(), dynamize(&sh.roots), add_extra(&sh.roots, sh.site, "")];
         for (v, roots) in variants.iter().enumerate() {
